@@ -2663,7 +2663,10 @@ func (s *swamp) DeleteTreasure(key string, shadowDelete bool) error {
 
 	// delete the treasure from the beaconKey
 	// delete the treasure from the swamp and from the chroniclerInterface too
-	s.deleteHandler(key, shadowDelete)
+	if s.deleteHandler(key, shadowDelete) == nil {
+		// a concurrent request removed the record first
+		return errors.New(ErrorTreasureDoesNotExists)
+	}
 
 	// destroy the swamp if there is no treasure in it
 	if s.beaconKey.Count() == 0 {
@@ -2823,21 +2826,14 @@ func (s *swamp) CloneAndDeleteTreasuresByKeys(keys []string) ([]treasure.Treasur
 	for _, key := range keys {
 		// Check if the treasure exists
 		if treasureObj := s.beaconKey.Get(key); treasureObj != nil {
-			// Start treasure guard with write lock (true = write lock)
-			lockerID := treasureObj.StartTreasureGuard(true)
-
-			// Clone the treasure before deletion
-			clonedTreasure := treasureObj.Clone(lockerID)
-
-			// Release the treasure guard
-			treasureObj.ReleaseTreasureGuard(lockerID)
-
-			// Add cloned treasure to result
-			result = append(result, clonedTreasure)
-
 			// Delete the treasure from the swamp (permanent deletion, not shadow delete)
-			// This is similar to CloneAndDeleteExpiredTreasures where we always do real deletion
-			s.deleteHandler(key, false)
+			// This is similar to CloneAndDeleteExpiredTreasures where we always do real deletion.
+			// deleteHandler clones the treasure under the same guard hold that removes it, so
+			// the copy handed out is exactly the record that was removed; it returns nil when
+			// a concurrent request removed the record first.
+			if clonedTreasure := s.deleteHandler(key, false); clonedTreasure != nil {
+				result = append(result, clonedTreasure)
+			}
 		}
 		// Missing keys are silently ignored (as per specification)
 	}
@@ -2975,6 +2971,14 @@ func (s *swamp) deleteHandler(key string, shadowDelete bool) (deletedTreasure tr
 	guardID := treasureObj.StartTreasureGuard(true, guard.BodyAuthID)
 	defer treasureObj.ReleaseTreasureGuard(guardID)
 
+	// While we were waiting for the guard another request may have deleted this
+	// record (or deleted it and created the key anew as a different object). Then
+	// there is nothing left for us to delete: deleting the detached object again
+	// would acknowledge a second delete - or hand out a second copy - of one record.
+	if s.beaconKey.Get(key) != treasureObj {
+		return nil
+	}
+
 	// Még változtatás előtt lemásoljuk a Treasure-t, hogy egy clone-t készíthessünk róla, hogy a törölt treasure-t minden
 	// adatával együtt vissza tudjuk adni.
 	clonedTreasure := treasureObj.Clone(guardID)
@@ -3004,7 +3008,7 @@ func (s *swamp) deleteHandler(key string, shadowDelete bool) (deletedTreasure tr
 	s.sendDeletedEventToClient(clonedTreasure)
 	s.sendSwampInfo()
 
-	return treasureObj
+	return clonedTreasure
 
 }
 
